@@ -43,7 +43,7 @@ WEIGHTS = {"m_random_mps": 2, "m_genmpo": 5, "m_measure_jw": 7, "m_sample": 3, "
 
 
 def budget(tier):
-    return 600 if tier == "quick" else 12000
+    return 2000 if tier == "quick" else 20000
 
 
 def _generating():
@@ -167,7 +167,12 @@ class MMeasureJW(e1.Op):
         ket = e2.pick(g, lambda v, sh: sh is not None and v.nr_phys == 1 and e2.sig(v) == e2.sig(g.task.slots[min(e2.objs(g.task, lambda v2, s2: v2.nr_phys == 1))]))
         if ket is None:
             return None
-        kind = rng.choice(["1site", "2site", "2site", "2site", "nsite", "nsite", "rdm"])
+        kind = rng.choice(["1site", "2site", "2site", "2site", "nsite", "nsite", "rdm", "rdm"])
+        if kind == "rdm":     # states whose norm sits in .factor (scalar multiples, sums, canonize_(normalize=False)) are the interesting operands
+            sig0 = e2.sig(g.val(ket))
+            fk = [s for s in e2.objs(g.task, lambda v, sh: sh is not None and v.nr_phys == 1 and e2.sig(v) == sig0 and e2.nonzero(sh) and abs(complex(v.factor) - 1) > 1e-12)]
+            if fk and rng.random() < 0.6:
+                ket = rng.choice(fk)
         names = sorted(sp.table)
         args = {"kind": kind}
         if kind == "1site":
